@@ -44,6 +44,13 @@ Skeletons ==
     \cup {<<"up">>, <<"upd", "s3">>, <<"upd", "..", "s2">>, <<"upd", "..", "s1">>, <<"in">>, <<"in", "..", "..", "s1">>,
           <<"%2e%2e", "s1">>, <<"%2E%2E", "s1">>, <<"..%2f", "s1">>, <<"..%2fs1">>, <<"%2e%2e%2fs1">>, <<"..;", "s1">>,
           <<"..", "..", "l2", "s2">>, <<"..", "l2", "..", "s1">>}
+\* (c) one-segment spellings that only climb if the server decodes them: an encoded (or doubly encoded, or
+\*     back-slash) separator glued to plain or encoded dots.  The specification has no decoding step, so each is an
+\*     ordinary (absent) name and must never produce secret bytes.
+EncDots == {"..", "%2e%2e", "%2E%2E", ".%2e", "%2E.", "%252e%252e"}
+EncSeps == {"%2f", "%2F", "%5c", "%5C", "\\", "%252f", "%252F"}
+Rep(x, j) == IF j = 1 THEN x ELSE x \o x
+EncSkeletons == {<<Rep(d \o sp, j) \o nm>> : d \in EncDots, sp \in EncSeps, j \in 1..2, nm \in {"s0", "s1", "s2", "f.txt"}}
 Leads == {"/", "", "//h", "http://h", "http://h/", "/./", "//", "/?x=/", "/#/"}
 QF == {<<"", "">>, <<"?q=1", "">>, <<"", "#top">>, <<"?q=1", "#top">>, <<"?a=/../../s0", "">>}
 C01Ranges == {NoRange, Rng(<<Fo(Num(0))>>), Rng(<<FL(Num(0), Num(0))>>), Rng(<<Su(Num(1))>>),
@@ -56,6 +63,8 @@ C01Init ==
     \/ \E W \in C01Worlds, e \in Entries, m \in {"GET", "HEAD", "POST"}, qf \in QF, s \in Skeletons :
             case = Req(W.id, e, m, "/", s, qf[1], qf[2], NoRange, "")
     \/ \E W \in C01Worlds, e \in Entries, rg \in C01Ranges, s \in Skeletons :
+            case = Req(W.id, e, "GET", "/", s, "", "", rg, "")
+    \/ \E W \in {V \in C01Worlds : V.id <= 8}, e \in Entries, rg \in {NoRange, Rng(<<Fo(Num(0))>>)}, s \in EncSkeletons :
             case = Req(W.id, e, "GET", "/", s, "", "", rg, "")
 
 -----------------------------------------------------------------------------
@@ -82,11 +91,18 @@ C02Cases(u) ==
 
 -----------------------------------------------------------------------------
 \* C03: every single spec with offsets from {0,1,L-2,L-1,L,L+1,u64max,>u64max,junk}; pairs from a reduced set
-OffsetsFor(L) == {Num(v) : v \in {0, 1, L, L + 1} \cup (IF L >= 1 THEN {L - 1} ELSE {}) \cup (IF L >= 2 THEN {L - 2} ELSE {})}
+\*      files of about 8 KiB also get the offsets around the 4 KiB block boundary; the large file gets slices whose
+\*      LENGTH is a whole number of I/O blocks (16, 32, 64 KiB), where chunked readers go wrong
+OffsetsFor(L) == {Num(v) : v \in {0, 1, L, L + 1} \cup (IF L >= 1 THEN {L - 1} ELSE {}) \cup (IF L >= 2 THEN {L - 2} ELSE {})
+                                 \cup (IF L >= 8000 /\ L <= 10000 THEN {4095, 4096, 4097} ELSE {})}
                  \cup {Big(1), Big(2), Junk}
+BlockSpecs(L) == IF L > 65536
+                 THEN {FL(Num(0), Num(65535)), FL(Num(1), Num(65536)), Su(Num(65536)), Fo(Num(L - 65536)),
+                       FL(Num(0), Num(32767)), FL(Num(100), Num(100 + 16383)), FL(Num(0), Num(65536)), FL(Num(0), Num(65534))}
+                 ELSE {}
 Singles(L) == {FL(a, b) : a \in OffsetsFor(L), b \in OffsetsFor(L)} \cup {Fo(a) : a \in OffsetsFor(L)}
-              \cup {Su(a) : a \in OffsetsFor(L)} \cup {JunkSpec}
-Reduced(L) == {FL(Num(0), Num(0)), Fo(Num(0)), Su(Num(1)), JunkSpec, FL(Num(0), Num(L)), Su(Num(L + 1))}
+              \cup {Su(a) : a \in OffsetsFor(L)} \cup {JunkSpec} \cup BlockSpecs(L)
+Reduced(L) == {FL(Num(0), Num(0)), Fo(Num(0)), Su(Num(1)), JunkSpec, FL(Num(0), Num(L)), Su(Num(L + 1))} \cup BlockSpecs(L)
               \cup (IF L >= 1 THEN {FL(Num(0), Num(L - 1)), FL(Num(L - 1), Num(L - 1)), Fo(Num(L - 1)), Su(Num(L))} ELSE {})
               \cup (IF L >= 2 THEN {FL(Num(1), Num(L - 2)), FL(Num(L - 2), Num(L - 1)), Su(Num(2)), FL(Num(1), Num(0))} ELSE {})
 Multi(L, k) == UNION {[1..n -> Reduced(L)] : n \in 2..k}
